@@ -73,6 +73,8 @@ PermCaseOK(A, P) ==
                      /\ Eq(ApplyPRight(ApplyPRightTrans(A, P), P), A)
                      /\ Eq(ApplyPRight(A, P), Mul(A, PM))
                      /\ Eq(ApplyPRightTrans(A, P), Mul(A, Transpose(PM)))
+                     /\ Eq(ApplyPRightSeq(A, P), ApplyPRight(A, P))                 \* the swap-by-swap form used for very wide matrices
+                     /\ Eq(ApplyPRightTransSeq(A, P), ApplyPRightTrans(A, P))
 
 SetCaseOK(a, b) ==
   /\ Xor(a, b) = XorD(a, b)
